@@ -559,6 +559,22 @@ theorem referral_glue_wins (cached referral : List Nat) (h : referral ≠ []) :
 
 example : glueFromReferral [11] [12] = ([12], [12]) ∧ glueFromReferral [11] [] = ([], [11]) := by decide
 
+/-- **failed_refresh_replaces_nothing.** A background refresh whose answer falls into the
+other partition than the claimed entry — in particular a SERVFAIL coming back for a
+positive or negative answer — writes nothing in its place: the claimed entry is left to
+lapse under the cut it already carries (`stored_cut_bounds_entry`); there is no route by
+which a failing refresh re-admits, holds over or re-floors the old answer. -/
+theorem failed_refresh_replaces_nothing (cut : Deadline) (key : Nat) :
+    replaceIfCurrent false cut key = none ∧
+    ∀ same r, replaceIfCurrent same cut key = some r → same = true ∧ r.1 = cut := by
+  refine ⟨rfl, ?_⟩
+  intro same r h
+  cases same with
+  | false => cases h
+  | true => simp only [replaceIfCurrent, if_true, Option.some.injEq] at h; subst h; exact ⟨rfl, rfl⟩
+
+example : replaceIfCurrent false (some (30 * sec)) 7 = none := by decide
+
 /-- **refresh_keeps_cut.** Whatever a background refresh writes back —
 positive answer, NXDOMAIN, NODATA or SERVFAIL — the replacement entry carries
 exactly the cut of the refresh's own resolution (never none when that is bounded),
